@@ -390,6 +390,7 @@ class MyPyAstVisitor:
                 id=id_,
                 name=node.name,
                 docstring=self.docstring_parser.get_class_documentation(node),
+                is_public=self._is_public(node.name, node.fullname),
             ),
         )
 
